@@ -39,11 +39,15 @@ def p_flow(func):
     p0 = set()
     changed = True
 
+    mutated = {}  # k -> indices whose values were put into the object p[k] (p[1].append(p[3]))
+
     def of(e):
         out = direct(e)
         for n in ast.walk(e):
             if isinstance(n, ast.Name) and n.id in names:
                 out |= names[n.id]
+        for k in list(out):
+            out |= mutated.get(k, set())
         return out
 
     rounds = 0
@@ -62,6 +66,15 @@ def p_flow(func):
             elif isinstance(n, ast.Call) and isinstance(n.func, ast.Attribute) and isinstance(n.func.value, ast.Name) and n.func.attr in ("append", "extend", "update", "insert", "add", "setdefault"):
                 for a in list(n.args) + [k.value for k in n.keywords]:
                     tgt_vals.append((n.func.value, a))
+            if isinstance(n, ast.Call) and isinstance(n.func, ast.Attribute) and n.func.attr in ("append", "extend", "insert", "add", "update") and isinstance(n.func.value, ast.Subscript) \
+                    and isinstance(n.func.value.value, ast.Name) and n.func.value.value.id == parg and isinstance(n.func.value.slice, ast.Constant) and isinstance(n.func.value.slice.value, int):
+                k = n.func.value.slice.value
+                add = set()
+                for a in n.args:
+                    add |= of(a)
+                if not add <= mutated.get(k, set()):
+                    mutated.setdefault(k, set()).update(add)
+                    changed = True
             for t, v in tgt_vals:
                 src = of(v)
                 if isinstance(t, ast.Subscript) and isinstance(t.value, ast.Name) and t.value.id == parg:
@@ -130,7 +143,17 @@ def run(ctx, idx):
                 for i, sym in enumerate(p.rhs):
                     if sym == src_rule.token:
                         alt = p.rhs[:i] + [t] + p.rhs[i + 1:]
-                        if not any(q.lhs == p.lhs and q.rhs == alt for q in L.productions):
+
+                        def yields_alone(sym_, goal, seen=()):
+                            """sym_ derives exactly the one token `goal` (through unit productions)"""
+                            if sym_ == goal:
+                                return True
+                            if sym_ in seen:
+                                return False
+                            return any(q2.lhs == sym_ and len(q2.rhs) == 1 and yields_alone(q2.rhs[0], goal, seen + (sym_,)) for q2 in L.productions)
+
+                        covered = any(q.lhs == p.lhs and len(q.rhs) == len(alt) and all(a_ == b_ for k_, (a_, b_) in enumerate(zip(q.rhs, alt)) if k_ != i) and yields_alone(q.rhs[i], t) for q in L.productions)
+                        if not covered:
                             missing.append(p)
             ctx.ob("C10.a", "%s::token(%s)" % (rel, t), rel, src_rule.node.lineno, not missing,
                    "token %s is produced by %s for the lexemes %s and is accepted wherever %s is" % (t, src_rule.name, sorted(words), src_rule.token) if not missing else
@@ -282,7 +305,28 @@ def run(ctx, idx):
         "arguments": [["LPAREN", "RPAREN"], ["LPAREN", "argument_list", "RPAREN"]],
         "list": [["LBRACK", "RBRACK"], ["LBRACK", "elements", "RBRACK"]],
     }
+    # decided on the language the productions generate (an Earley recogniser over the extracted grammar), not on how it is written
+    X, A, P = ["STRING"], ["ID", "EQUAL", "STRING"], ["STRING", "COLON", "STRING"]
+    forms = {
+        "elements": ("list", "LBRACK", "RBRACK", X), "tuple_pairs": ("list", "LBRACK", "RBRACK", P), "argument_list": ("arguments", "LPAREN", "RPAREN", A),
+    }
+    lang_done = set()
+    if all(any(p.lhs == st for p in L.productions) for st, _o, _c, _i in forms.values()):
+        for lhs, (start, o_, c_, item) in forms.items():
+            yes = {"one item": [o_] + item + [c_], "a trailing comma": [o_] + item + ["COMMA", c_], "two items": [o_] + item + ["COMMA"] + item + [c_], "two items and a trailing comma": [o_] + item + ["COMMA"] + item + ["COMMA", c_]}
+            no = {"an empty slot between two commas": [o_] + item + ["COMMA", "COMMA"] + item + [c_], "a leading comma": [o_, "COMMA"] + item + [c_], "two trailing commas": [o_] + item + ["COMMA", "COMMA", c_]}
+            lost = [k for k, seq in yes.items() if not grammar.derives(L.productions, start, seq)]
+            gained = [k for k, seq in no.items() if grammar.derives(L.productions, start, seq)]
+            ctx.ob("C10.e", "%s::grammar(%s)::layout-forms" % (rel, lhs), rel, 0, not lost and not gained, "lists of %s accept one or more items with an optional trailing comma, and nothing else" % lhs if not lost and not gained else
+                   "; ".join((["%s is no longer accepted" % k for k in lost] + ["%s is now accepted (an element is silently skipped)" % k for k in gained])[:3]))
+            lang_done.add(lhs)
+        for lhs, (o_, c_) in (("arguments", ("LPAREN", "RPAREN")), ("list", ("LBRACK", "RBRACK"))):
+            okl = grammar.derives(L.productions, lhs, [o_, c_])
+            ctx.ob("C10.e", "%s::grammar(%s)::layout-forms" % (rel, lhs), rel, 0, okl, "the empty form is accepted" if okl else "the empty form `%s %s` is no longer accepted" % (o_, c_))
+            lang_done.add(lhs)
     for lhs, alts in want.items():
+        if lhs in lang_done:
+            continue
         have = [p.rhs for p in L.productions if p.lhs == lhs]
         miss = [a for a in alts if a not in have]
         ctx.ob("C10.e", "%s::grammar(%s)::layout-forms" % (rel, lhs), rel, 0, not miss, "empty / trailing-separator forms present" if not miss else "`%s : %s` is missing: %s is no longer accepted" % (lhs, " ".join(miss[0]), "a trailing comma" if miss[0][-1] == "COMMA" else "the empty form" if len(miss[0]) == 2 else "this form"))
@@ -602,6 +646,10 @@ def error_callbacks_total(ctx, idx, rule, L):
         for n in ast.walk(cb):
             if isinstance(n, ast.Subscript) and not isinstance(n.slice, ast.Slice) and isinstance(n.ctx, ast.Load):
                 # t.value[0] in t_error: PLY calls t_error with the non-empty rest of the input as t.value
+                # `<pattern>.split(text)[0]` / `[-1]`, `text.split(sep)[0]` / `[-1]`: splitting with a separator always yields at least one piece
+                if isinstance(n.value, ast.Call) and isinstance(n.value.func, ast.Attribute) and n.value.func.attr in ("split", "rsplit", "partition", "rpartition") and n.value.args \
+                        and ((isinstance(n.slice, ast.Constant) and n.slice.value in (0, -1)) or (isinstance(n.slice, ast.UnaryOp) and isinstance(n.slice.op, ast.USub) and isinstance(n.slice.operand, ast.Constant) and n.slice.operand.value == 1)):
+                    continue
                 if nm == "t_error" and K.src(n) == "%s.value[0]" % arg:
                     continue
                 partial.append((n.lineno, "`%s` can raise IndexError/KeyError" % K.src(n)[:80]))
